@@ -436,7 +436,41 @@ pub trait QueueApi: Sized + 'static {
     /// consume the sorted iterator / iter_mut through consumer `how` (see CONSUMERS); None = not applicable to this type
     fn so_consume(q: Self, how: usize, k: usize) -> Option<Vec<(u32, i64)>>;
     fn im_consume(q: &mut Self, how: usize, k: usize) -> Option<Vec<(u32, i64)>>;
+    /// the same consumer over the sorted iterator wrapped so that only `next` / `next_back` /
+    /// `size_hint` reach it: every other iterator method is then the std default built on those
+    fn so_consume_plain(q: Self, how: usize, k: usize) -> Option<Vec<(u32, i64)>>;
 }
+
+/// Forwards only the required methods of a forward iterator.
+pub struct PlainFwd<I>(pub I);
+impl<I: Iterator> Iterator for PlainFwd<I> {
+    type Item = I::Item;
+    fn next(&mut self) -> Option<I::Item> {
+        self.0.next()
+    }
+    fn size_hint(&self) -> (usize, Option<usize>) {
+        self.0.size_hint()
+    }
+}
+impl<I: ExactSizeIterator> ExactSizeIterator for PlainFwd<I> {}
+
+/// Forwards only the required methods of a double-ended iterator.
+pub struct PlainDe<I>(pub I);
+impl<I: Iterator> Iterator for PlainDe<I> {
+    type Item = I::Item;
+    fn next(&mut self) -> Option<I::Item> {
+        self.0.next()
+    }
+    fn size_hint(&self) -> (usize, Option<usize>) {
+        self.0.size_hint()
+    }
+}
+impl<I: DoubleEndedIterator> DoubleEndedIterator for PlainDe<I> {
+    fn next_back(&mut self) -> Option<I::Item> {
+        self.0.next_back()
+    }
+}
+impl<I: ExactSizeIterator> ExactSizeIterator for PlainDe<I> {}
 
 macro_rules! common_methods {
     ($Q:ident, $H:ty) => {
@@ -704,6 +738,9 @@ macro_rules! impl_api {
             fn so_consume(q: Self, how: usize, k: usize) -> Option<Vec<(u32, i64)>> {
                 $crate::consume_fwd!(q.into_sorted_iter(), how, k).map(|v: Vec<(Item, Prio)>| v.iter().map(|(i, p)| (i.id(), p.ord)).collect())
             }
+            fn so_consume_plain(q: Self, how: usize, k: usize) -> Option<Vec<(u32, i64)>> {
+                $crate::consume_fwd!(PlainFwd(q.into_sorted_iter()), how, k).map(|v: Vec<(Item, Prio)>| v.iter().map(|(i, p)| (i.id(), p.ord)).collect())
+            }
             fn im_consume(q: &mut Self, how: usize, k: usize) -> Option<Vec<(u32, i64)>> {
                 $crate::consume_fwd!(q.iter_mut(), how, k).map(|v: Vec<(&mut Item, &mut Prio)>| v.iter().map(|(i, p)| (i.id(), p.ord)).collect())
             }
@@ -761,6 +798,9 @@ macro_rules! impl_api {
             }
             fn so_consume(q: Self, how: usize, k: usize) -> Option<Vec<(u32, i64)>> {
                 $crate::consume_de!(q.into_sorted_iter(), how, k).map(|v: Vec<(Item, Prio)>| v.iter().map(|(i, p)| (i.id(), p.ord)).collect())
+            }
+            fn so_consume_plain(q: Self, how: usize, k: usize) -> Option<Vec<(u32, i64)>> {
+                $crate::consume_de!(PlainDe(q.into_sorted_iter()), how, k).map(|v: Vec<(Item, Prio)>| v.iter().map(|(i, p)| (i.id(), p.ord)).collect())
             }
             fn im_consume(q: &mut Self, how: usize, k: usize) -> Option<Vec<(u32, i64)>> {
                 $crate::consume_de!(q.iter_mut(), how, k).map(|v: Vec<(&mut Item, &mut Prio)>| v.iter().map(|(i, p)| (i.id(), p.ord)).collect())
